@@ -32,6 +32,32 @@ BAD_FUNCS = {
 }
 
 
+def fresh_bad_func(kind):
+    """A new callable per request: what a long-lived program passes are short-lived closures, lambdas and bound methods."""
+    if kind == "builtin":
+        return len
+    if kind == "plain":
+        def _plain_fresh(*a, **k):
+            return None
+        return _plain_fresh
+    if kind == "lambda":
+        return lambda *a, **k: None
+    if kind == "gen":
+        def _gen_fresh(*a, **k):
+            yield 1
+        return _gen_fresh
+    if kind == "asyncgen":
+        async def _agen_fresh(*a, **k):
+            yield 1
+        return _agen_fresh
+    if kind == "method":
+        class Holder:
+            def run(self, *a, **k):
+                return None
+        return Holder().run
+    return BAD_FUNCS[kind]
+
+
 class OpsMixin:
     # ------------------------------------------------------------ dispatch
     def do_op(self, step, issuer):
@@ -124,6 +150,8 @@ class OpsMixin:
             req.accepted = False
             if not expect:
                 self.violate("C09.type", f"{method} rejected with {type(e).__name__}: {e} although nothing is wrong (locked={pr.locked} closed={pr.closed})")
+                if gname is None and isinstance(e, self.mods.exc.InvalidGroupName):
+                    self.violate("C10.name_fresh", f"{method} without a group name failed over the name it generated itself: {type(e).__name__}: {e} ({len(pr.live_groups)} live groups)")
                 if gname is not None and gname in pr.dead_groups:
                     self.violate("C07.name_free", f"{method}(group_name={gname!r}) rejected with {type(e).__name__} although that group was cancelled and its name must be free")
             elif not any(isinstance(e, c) for c in expect):
@@ -202,7 +230,7 @@ class OpsMixin:
         req.n = step.get("num", 1)
         self.reqs.append(req)
         fk = step.get("func_kind")
-        func = BAD_FUNCS[fk] if fk else self.make_func(req)
+        func = (fresh_bad_func(fk) if req.idx % 3 else BAD_FUNCS.get(fk, _plain)) if fk else self.make_func(req)
         if fk:
             req.func = func
         req.args_obj = self.make_args(step.get("args", 0), req)
@@ -237,7 +265,7 @@ class OpsMixin:
         req = ReqRec(len(self.reqs), pr, kind, step)
         self.reqs.append(req)
         fk = step.get("func_kind")
-        func = BAD_FUNCS[fk] if fk else self.make_func(req)
+        func = (fresh_bad_func(fk) if req.idx % 3 else BAD_FUNCS.get(fk, _plain)) if fk else self.make_func(req)
         if fk:
             req.func = func
         it = self.make_iterable(req)
@@ -426,10 +454,11 @@ class OpsMixin:
         flushed = sorted(tid for tid, t in pr.tasks.items() if t.forget == "forgotten")
         pend = [tid for tid in run if pr.tasks[tid].pending]
         unbegun = [tid for tid in run if not pr.tasks[tid].begun]
+        qwait = [t.tid for t in getattr(self, "qwaiters", ()) if t.pool is pr]
         ids = []
         for s in sels:
             k = s[0]
-            src = {"run": run, "ended": ended, "incb": incb, "flushed": flushed, "pend": pend, "unbegun": unbegun}.get(k)
+            src = {"run": run, "ended": ended, "incb": incb, "flushed": flushed, "pend": pend, "unbegun": unbegun, "qwait": qwait}.get(k)
             if src is not None:
                 if src:
                     ids.append(src[s[1] % len(src)])
@@ -880,11 +909,11 @@ class OpsMixin:
         N, L = pr.size, pr.L
         want = 6 if N is None else max(N - L, 0) + 1
         expect = 6 if N is None else max(N - L, 0)
+        pr.probe_mode = True
         if pr.cls == "T":
             step = {"op": "apply", "pool": pr.idx, "num": want, "rkind": "probe", "bodies": [{"pre": [["g"]]}], "fname": "probe"}
             name = self.do_op(step, ("conductor",))
         else:
-            pr.probe_mode = True
             name = self.do_op({"op": "start", "pool": pr.idx, "num": want}, ("conductor",))
         if name is None:
             pr.probe_mode = False
